@@ -6,6 +6,8 @@ CONSTANTS
   MaxRefs = 65535
   Strategy = "ff"
   ExactPool = TRUE
+  AsIs = {}
+  EmptyLive = FALSE
   InvSkip = {}
 POSTCONDITION Accepted
 CHECK_DEADLOCK FALSE
